@@ -153,7 +153,7 @@ mod api {
 	#[rpc(server, client, namespace = "map", namespace_separator = ".")]
 	pub trait Named {
 		#[method(name = "m1", param_kind = map)]
-		fn m1(&self, nonce: u64, count: i64) -> RpcResult<i64>;
+		fn m1(&self, nonce: u64, #[argument(rename = "Count.Total")] count: i64) -> RpcResult<i64>;
 		#[method(name = "m2", param_kind = map, aliases = ["map_m2"])]
 		async fn m2(&self, nonce: u64, first_arg: String, second_arg: String) -> RpcResult<Vec<String>>;
 		#[method(name = "m3", param_kind = map, blocking)]
@@ -685,7 +685,7 @@ static METHODS: &[MD] = &[
 	md("Pos::opt2", "pos_opt2", &["pos.opt2"], &[NONCE, p("a", Ty::Str), o("b", Ty::Str), o("c", Ty::Inner)], Array, "sync"),
 	md("Pos::mid", "pos_mid", &[], &[NONCE, o("a", Ty::I64), p("b", Ty::Str)], Array, "blocking"),
 	md("Pos::opt3", "pos_opt3", &[], &[NONCE, o("a", Ty::Bytes), o("b", Ty::Kind), o("c", Ty::MapI64)], Array, "async"),
-	md("Named::m1", "map.m1", &[], &[NONCE, p("count", Ty::I64)], ByName, "sync"),
+	md("Named::m1", "map.m1", &[], &[NONCE, pa("Count.Total", &["count_total"], Ty::I64)], ByName, "sync"),
 	md(
 		"Named::m2",
 		"map.m2",
@@ -1535,15 +1535,7 @@ fn feature(md: &MD, case: &Case) -> String {
 	} else {
 		"method"
 	};
-	format!(
-		"path={},enc={},tail={},name={},keys={},kind={}",
-		case.path,
-		case.enc,
-		tail_shape(md, case),
-		case.name_kind,
-		if case.alt_keys { "alt" } else { "declared" },
-		kind
-	)
+	format!("enc={},tail={},name={}{},kind={}", case.enc, tail_shape(md, case), case.name_kind, if case.alt_keys { ",keys=alt" } else { "" }, kind)
 }
 
 fn got_json(g: &Got) -> Value {
@@ -1604,8 +1596,15 @@ async fn run_case(env: &Env, case: &Case) -> Result<CaseOut, String> {
 		"http_wire": wire,
 	});
 	let mut viol = |kind: &str, extra: &str, detail: String| {
-		let sig = if extra.is_empty() { format!("{kind}/{feat}") } else { format!("{kind}/{feat},{extra}") };
-		out.violations.push(Violation::new(sig, format!("{}: {detail}", case.tag), witness.clone()));
+		// subscription-stream anomalies do not depend on how the subscribe call was encoded: classify by handler
+		let scope = match kind {
+			"item-mismatch" | "item-undecodable" | "items-missing" | "notification-name-mismatch" | "unsubscribe-failed" | "unsubscribe-not-effective" => {
+				format!("handler={}", case.tag)
+			}
+			_ => feat.clone(),
+		};
+		let sig = if extra.is_empty() { format!("{kind}/{scope}") } else { format!("{kind}/{scope},{extra}") };
+		out.violations.push(Violation::new(sig, format!("{} [path={} via={} {feat}]: {detail}", case.tag, case.path, case.via), witness.clone()));
 	};
 
 	if !late.is_empty() {
@@ -1775,6 +1774,7 @@ fn run_shard(seed: u64, shard: u64, n_cases: u64) -> ShardOut {
 	let mut violations = Vec::new();
 	let mut harness_errors = Vec::new();
 	let mut r = Rng::fork(seed, shard);
+	let mut witnessed: HashMap<String, u32> = HashMap::new();
 	block_on_virtual(async {
 		let mut env: Option<Env> = None;
 		for i in 0..n_cases {
@@ -1810,7 +1810,15 @@ fn run_shard(seed: u64, shard: u64, n_cases: u64) -> ShardOut {
 						ev.nontrivial(&serde_json::to_string(&case).unwrap());
 						ev.sample_class(&format!("{} {}", case.tag, case.path), json!({"case": case, "params_text": method(&case.tag).and_then(|m| params_text(m, &case))}));
 					}
-					violations.extend(out.violations);
+					for mut vi in out.violations {
+						// keep the full witness only for the first few occurrences of a signature (memory)
+						let seen = witnessed.entry(vi.signature.clone()).or_insert(0u32);
+						*seen += 1;
+						if *seen > 3 {
+							vi.witness = Value::Null;
+						}
+						violations.push(vi);
+					}
 				}
 				Err(e) => harness_errors.push(format!("case {i} of shard {shard}: {e}")),
 			}
@@ -1865,7 +1873,7 @@ fn main() {
 		}
 	}
 
-	let total: u64 = ctx.tier.pick(3_200, 100_000);
+	let total: u64 = ctx.tier.pick(16_000, 320_000);
 	let shards = 16u64;
 	let results = run_parallel((0..shards).collect(), |_, s| run_shard(ctx.seed, s, total / shards));
 	let mut harness_errors = Vec::new();
